@@ -347,7 +347,8 @@ def rule_r3(prog, res, ef, tier):
 STRUCTURAL = [
     ('spyne.protocol.xml:XmlDocument',
      ('deserialize', 'decompose_incoming_envelope', 'from_element',
-      'complex_from_element', 'array_from_element', 'validate_body')),
+      'complex_from_element', 'array_from_element', 'validate_body',
+      '__validate_lxml')),
     ('spyne.protocol.soap.soap11:Soap11',
      ('deserialize', 'decompose_incoming_envelope')),
     ('spyne.protocol.dictdoc._base:DictDocument',
@@ -1020,6 +1021,44 @@ def rule_r13(prog, res):
                         'raise RecursionError out of the request')
 
 
+# ------------------------------------------------------------------ R14
+def rule_r14(prog, res):
+    res.rule('R14', 'SOAP envelope decomposition names a method for every '
+             'request it lets through: the branch that leaves '
+             'method_request_string unset (a Fault body) refuses requests')
+    s11 = prog.cls('spyne.protocol.soap.soap11:Soap11')
+    f = s11.methods.get('decompose_incoming_envelope')
+    if f is None:
+        raise AnalysisError('Soap11.decompose_incoming_envelope', 'not found')
+    branches = [i for i in walk_no_defs(f.node) if isinstance(i, ast.If) and
+                'Fault' in unparse(i.test)]
+    res.floor('R14', 'Fault-body branches', len(branches), 1)
+    for br in branches:
+        sets = any(isinstance(a, ast.Assign) and any(
+            unparse(t).endswith('.method_request_string') for t in a.targets)
+            for st in br.body for a in ast.walk(st))
+        if sets:
+            continue
+        refuses = False
+        for st in br.body:
+            for r in ast.walk(st):
+                if isinstance(r, ast.Raise):
+                    atoms = guardspec.atoms_at(r, br)
+                    if any('REQUEST' in t and pol for t, pol in atoms):
+                        refuses = True
+        where = '%s:%d' % (f.module.relpath, br.lineno)
+        res.ob('R14', where, 'the Fault-body branch %s requests' % (
+            'refuses' if refuses else 'lets through'),
+            'ok' if refuses else 'VIOLATED')
+        if not refuses:
+            res.finding('R14', 'Soap11.decompose_incoming_envelope|fault-'
+                        'request', where, 'a request whose Body holds a '
+                        'soap:Fault passes this branch with '
+                        'method_request_string unset: get_call_handles '
+                        'dereferences None and AttributeError escapes the '
+                        'request')
+
+
 def run(prog, res, tier):
     res.run_rule(rule_r8, prog, res)
     res.run_rule(rule_r7, prog, res)
@@ -1033,6 +1072,7 @@ def run(prog, res, tier):
     res.run_rule(rule_r11, prog, res)
     res.run_rule(rule_r12, prog, res)
     res.run_rule(rule_r13, prog, res)
+    res.run_rule(rule_r14, prog, res)
     res.run_rule(rule_r4, prog, res, tier)
     res.run_rule(rule_r5, prog, res)
     res.run_rule(rule_r6, prog, res, tier)
@@ -1050,6 +1090,17 @@ _H = 'spyne/protocol/dictdoc/hier.py'
 _MI = 'spyne/protocol/soap/mime.py'
 
 MUTANTS = [
+    Mutant('fault-request-let-through', 'R14', 'fire', _S,
+           in_func('Soap11.decompose_incoming_envelope',
+                   "            if message is self.REQUEST:\n"
+                   "                # only a response can carry a fault\n"
+                   "                raise Fault('Client.SoapError', 'A request"
+                   " can not be a Fault')\n\n", ""), 'fault-request'),
+    Mutant('schema-validator-internal-error-escapes', 'R9', 'fire',
+           'spyne/protocol/xml.py',
+           in_func('XmlDocument.__validate_lxml',
+                   "        except etree.XMLSchemaValidateError as e:",
+                   "        except KeyError as e:"), 'XMLSchemaValidateError'),
     Mutant('href-table-indexed', 'R13', 'fire', _S,
            in_func('resolve_hrefs', "resolved_element = xmlids.get(ref)",
                    "resolved_element = xmlids[ref]"), 'id-table-indexed'),
